@@ -10,6 +10,7 @@ import (
 	"fmt"
 	"io"
 	"net/http"
+	"regexp"
 	"strings"
 
 	"github.com/nyaruka/gocommon/httpx"
@@ -89,6 +90,7 @@ type richGen struct {
 	nflows int
 	batch  bool
 	voice  bool // all flows are voice flows, the trigger carries a call
+	loc    bool // flows carry stress translations, the contact mostly speaks the translation language
 	feat   map[string]bool
 }
 
@@ -135,6 +137,10 @@ func (g *richGen) action(flowIdx, nodeID, k int) map[string]any {
 		return map[string]any{"uuid": grpCust, "name": "Customers"}
 	}
 	rname := hx.Pick(r, []string{"r0", "r1", "r2", "wh"})
+	if r.Chance(1, 10) {
+		// names at the limits of the result_name rule (the reader validates Result.Name when a run is read back)
+		rname = hx.Pick(r, []string{strings.Repeat("n", 64), "Has Space", "dash-ed_1", "R0", " lead"})
+	}
 	if g.voice && r.Chance(1, 4) {
 		if r.Bool() {
 			return set("say_msg", "text", g.text())
@@ -380,6 +386,9 @@ func (g *richGen) contact() map[string]any {
 	if r.Chance(3, 4) {
 		c["language"] = hx.Pick(r, []string{"eng", "spa"})
 	}
+	if g.loc && r.Chance(4, 5) {
+		c["language"] = hx.Pick(r, []string{"spa", "spa", "fra"})
+	}
 	if r.Bool() {
 		c["timezone"] = "America/Guayaquil"
 	}
@@ -427,6 +436,14 @@ func (g *richGen) contact() map[string]any {
 }
 
 func msgJSON(r *hx.Rand, n int) map[string]any {
+	m := msgJSON0(r, n)
+	if r.Chance(1, 8) {
+		m["text"] = hx.Pick(r, stressInputs)
+	}
+	return m
+}
+
+func msgJSON0(r *hx.Rand, n int) map[string]any {
 	m := map[string]any{"uuid": fmt.Sprintf("9bf91c2b-ce58-4cef-aacc-%012d", n), "text": hx.Pick(r, []string{"a", "b yes", "25", "hello there", "", "Male"}),
 		"urn": "tel:+12024561111", "channel": map[string]any{"uuid": chanUUID, "name": "Android"}}
 	if r.Chance(1, 4) {
@@ -485,8 +502,8 @@ func (g *richGen) trigger(contact map[string]any) map[string]any {
 	if r.Chance(1, 2) {
 		t["params"] = map[string]any{"x": hx.Pick(r, []any{"a", 1, "Male"}), "list": []any{1, "two"}, "Weird Key": map[string]any{"k": "v"}}
 	}
-	if r.Chance(1, 2) {
-		t["environment"] = map[string]any{"date_format": "DD-MM-YYYY", "time_format": "tt:mm", "timezone": "America/Guayaquil", "allowed_languages": []string{"eng", "spa"},
+	if r.Chance(1, 2) || g.loc {
+		t["environment"] = map[string]any{"date_format": "DD-MM-YYYY", "time_format": "tt:mm", "timezone": "America/Guayaquil", "allowed_languages": []string{"eng", "spa", "fra"},
 			"default_country": "US", "redaction_policy": "none", "input_collation": "default", "number_format": map[string]any{"decimal_symbol": ".", "digit_grouping_symbol": ","}}
 	}
 	return t
@@ -571,7 +588,11 @@ func genRich(r *hx.Rand, idx int, seed int64) *Scenario {
 	g.exempt = r.Chance(1, 6)
 	g.batch = r.Chance(1, 5)
 	g.voice = r.Chance(1, 6)
+	g.loc = r.Chance(1, 3)
 	fl := g.flows()
+	if g.loc {
+		localize(r, fl)
+	}
 	assetsJSON := richAssets(fl)
 	contact := g.contact()
 	trig := g.trigger(contact)
@@ -583,6 +604,9 @@ func genRich(r *hx.Rand, idx int, seed int64) *Scenario {
 		resJSON[i], _ = json.Marshal(g.resume(i, contact))
 	}
 	tags := []string{"rich"}
+	if g.loc {
+		tags = append(tags, "localized")
+	}
 	for k := range g.feat {
 		tags = append(tags, k)
 	}
@@ -628,6 +652,17 @@ func genRich(r *hx.Rand, idx int, seed int64) *Scenario {
 
 var _ httpx.Requestor = urlRequestor{}
 
+var longLocalizedCategory = regexp.MustCompile(`"category_localized":"[^"]{37,}"`)
+
+func (sc *Scenario) hasTag(t string) bool {
+	for _, x := range sc.Tags {
+		if x == t {
+			return true
+		}
+	}
+	return false
+}
+
 func runRich(o *hx.Opts, rnd *hx.Rand, res *hx.Result) {
 	n := o.Count(300, 15000)
 	for i := 0; i < n; i++ {
@@ -655,6 +690,14 @@ func runRich(o *hx.Opts, rnd *hx.Rand, res *hx.Result) {
 			res.Dist("rich:first-call=" + sr.base.Calls[0].Outcome)
 			last := sr.base.Calls[len(sr.base.Calls)-1]
 			res.Dist("rich:final-status=" + last.Status)
+			if sc.hasTag("localized") {
+				for _, c := range sr.base.Calls {
+					if longLocalizedCategory.MatchString(c.Session) {
+						res.Dist("rich:localized:saved-category_localized-over-36-chars")
+						break
+					}
+				}
+			}
 			okResumes := 0
 			for _, c := range sr.base.Calls[1:] {
 				if c.Outcome == "ok" {
@@ -789,6 +832,9 @@ func genFocused(r *hx.Rand, idx int, seed int64) *Scenario {
 	for i := 1; i <= g.nflows; i++ {
 		fl = append(fl, g.focusedFlow(i, g.nflows))
 	}
+	if g.loc = r.Chance(1, 3); g.loc {
+		localize(r, fl)
+	}
 	assetsJSON := richAssets(fl)
 	contact := g.contact()
 	trig := g.trigger(contact)
@@ -804,6 +850,9 @@ func genFocused(r *hx.Rand, idx int, seed int64) *Scenario {
 		resJSON[i], _ = json.Marshal(m)
 	}
 	tags := []string{"rich", "focused"}
+	if g.loc {
+		tags = append(tags, "localized")
+	}
 	for k := range g.feat {
 		tags = append(tags, k)
 	}
